@@ -498,6 +498,17 @@ func (x *Exec) eval(sx *SX, env *Env) Val {
 	case "fresh":
 		v := ev(0)
 		return Val{S: fmt.Sprintf("(>= (born %s) %s)", x.refOf(v), env.onow), T: types.Typ[types.Bool]}
+	case "old-now":
+		return Val{S: env.onow, T: types.Typ[types.Int]}
+	case "rowat":
+		// (rowat s a): the whole backing array a of the element type of slice s
+		v, a := ev(0), ev(1)
+		sl, ok := types.Unalias(v.T).Underlying().(*types.Slice)
+		if !ok {
+			x.specFail("rowat of non-slice")
+		}
+		h := heapSymIn(x, env.heaps, env.epoch, eName(sl.Elem()), x.eSort(sl.Elem()))
+		return Val{S: fmt.Sprintf("(select %s %s)", h, a.S)}
 	case "allocated-before":
 		v := ev(0)
 		return Val{S: fmt.Sprintf("(< (born %s) %s)", x.refOf(v), env.onow), T: types.Typ[types.Bool]}
